@@ -20,5 +20,6 @@ uint8_t vfr_is_mod_sign_of_d(opensmt::FastRational *r, uint8_t sn, uint8_t sd);
 uint8_t vfr_is_gcd(opensmt::FastRational *r, uint8_t sa, uint8_t sb);
 uint8_t vfr_is_lcm(opensmt::FastRational *r, uint8_t sa, uint8_t sb);
 uint8_t vfr_state(opensmt::FastRational *x);
+void vfr_make_int(opensmt::FastRational *x, uint64_t v);   // canonical integer value (word form iff it fits)
 }
 #define ALLKINDS ((uint8_t)7)
